@@ -21,7 +21,7 @@ ASSUMPTIONS = ["xattrs emulated by the harness keyed by inode; kill(2) interpose
 
 
 def cases(seed, tier):
-    n = 400 if tier == "quick" else 6000
+    n = 1000 if tier == "quick" else 6000
     rng = random.Random(seed * 1000003 + 17)
     for i in range(n):
         cid = "C17-%d-%d" % (seed, i)
